@@ -133,4 +133,11 @@ def receive (cap : Nat) (b : Bufio) (net : Net) : RecvResult × Bufio × Net :=
   | (.ok bs, b', net') => (receiveFrame bs.dropLast, b', net')
   | (.eof _, b', net') => (.unexpectedEOF, b', net')
 
+/-- `k` successive `receive()` calls on one connection -/
+def receiveN (cap : Nat) : Nat → Bufio → Net → List RecvResult
+  | 0, _, _ => []
+  | k + 1, b, net =>
+    let (r, b', net') := receive cap b net
+    r :: receiveN cap k b' net'
+
 end Varlink
